@@ -642,7 +642,7 @@ Qed.
 
 Lemma apply_event_total ev st : Inv st -> exists st', apply_event ev st = Val st' /\ Inv st'.
 Proof.
-  intros HI. destruct ev as [now|m|p v|p| |p r]; cbn [Select.apply_event].
+  intros HI. destruct ev as [now|m|p v|p| |p r|tnow]; cbn [Select.apply_event].
   - apply step_total; auto.
   - eexists; split; [reflexivity|]. apply Inv_wake.
     unfold Inv; cbn. intros He s Hs. apply sel_inv_app. apply HI; auto.
@@ -652,6 +652,7 @@ Proof.
   - destruct (aw_has p (p_awaiting st)); [destruct r|]; eexists; split; try reflexivity; auto.
     + apply notify_result_Inv; auto.
     + apply Inv_error.
+  - eexists; split; [reflexivity|]. apply Inv_check_expired; auto.
 Qed.
 
 Lemma Inv_initial mb aw : Inv (initial mb aw).
@@ -959,7 +960,7 @@ Lemma apply_event_start_ge t0 ev st st' :
   match ev with EStep t => (t0 <= t)%Z | _ => True end ->
   start_ge t0 st -> apply_event ev st = Val st' -> start_ge t0 st'.
 Proof.
-  intros Hev Hge H. destruct ev as [now|m|p v|p| |p r]; cbn [Select.apply_event] in H.
+  intros Hev Hge H. destruct ev as [now|m|p v|p| |p r|tnow]; cbn [Select.apply_event] in H.
   - eapply step_start_ge; eauto.
   - inversion H; subst. unfold start_ge, wake. destruct (p_selecting _); cbn; exact Hge.
   - inversion H; subst. unfold start_ge, notify_result, wake.
@@ -969,6 +970,7 @@ Proof.
   - destruct (aw_has p (p_awaiting st)); [destruct r|]; inversion H; subst; auto.
     all: try (unfold start_ge, notify_result, wake; destruct (fix45 && _); destruct (p_selecting _); cbn; exact Hge).
     all: try (unfold start_ge; cbn; exact Hge).
+  - inversion H; subst. unfold start_ge. destruct (check_expired_fields tnow st) as (_ & _ & Fsel & _). rewrite Fsel. exact Hge.
 Qed.
 
 Lemma run_start_ge t0 : forall evs st st',
@@ -1317,7 +1319,7 @@ Qed.
 Lemma apply_event_keys ev st st' :
   keys_ok st -> apply_event true verdict_of written ev st = Val st' -> keys_ok st'.
 Proof.
-  intros HK H. destruct ev as [now|m|p v|p| |p r]; cbn [apply_event andb] in H.
+  intros HK H. destruct ev as [now|m|p v|p| |p r|tnow]; cbn [apply_event andb] in H.
   - eapply step_keys; eauto.
   - inversion H; subst. destruct HK as (A & B). unfold wake. destruct (p_selecting _); split; auto.
   - inversion H; subst. apply notify_result_keys; auto.
@@ -1327,6 +1329,8 @@ Proof.
   - destruct (aw_has p (p_awaiting st)); [destruct r|]; inversion H; subst; auto.
     all: try (apply notify_result_keys; auto).
     all: try (destruct HK as (A & B); split; auto).
+  - inversion H; subst. destruct (check_expired_fields tnow st) as (_ & Faw & Fsel & Fval & _).
+    unfold keys_ok. rewrite Fsel, Faw, Fval. exact HK.
 Qed.
 
 Lemma run_keys : forall evs st st',
